@@ -85,6 +85,28 @@ template <class X> struct Esc {
         }
     }
 
+    // input range and output buffer in ONE block, the output starting exactly where the input ends (and, second layout, the input
+    // sitting at the far end of the output buffer's block): the two do not overlap, so nothing may differ from the separate-buffer call
+    void adjacent_checks(Ctx& c, const Str& s) {
+        if (s.empty()) return;
+        typename X::S w = widen<X>(s); size_t n = w.size();
+        for (int flags = 0; flags < 4; flags++) {
+            bool plus = flags & 1, nb = flags & 2; size_t bound = (nb ? 6 : 3) * n + 1;
+            for (int layout = 0; layout < 2; layout++) {
+                std::vector<Char> blk(n + bound + n, X::wid('#'));
+                Char* in = layout == 0 ? blk.data() : blk.data() + bound; Char* out = layout == 0 ? blk.data() + n : blk.data();
+                memcpy(in, w.data(), n * sizeof(Char));
+                Char* ret; { LibScope ls; ret = X::EscapeEx(in, in + n, out, plus, nb); } c.evaluations++;
+                Str what = fmt("uriEscapeEx(\"%s\", spaceToPlus=%d, normalizeBreaks=%d) with %s", esc(s).c_str(), (int)plus, (int)nb, layout == 0 ? "the output buffer starting exactly at the end of the input range" : "the input range starting exactly at the end of the output buffer");
+                if (!ret || ret < out || ret >= out + bound) { c.violation("C16", fmt("escape/%s/adjacent-buffers/returned-pointer-outside-output", X::tag()), what); continue; }
+                Str got = narrow<X>(out, ret), model = m_escape(s, plus, nb);
+                if (*ret != 0 || got != model) c.violation("C16", fmt("escape/%s/adjacent-buffers/differs-from-model", X::tag()), what + fmt(" output=\"%s\" model=\"%s\"", esc(got).c_str(), esc(model).c_str()));
+                if (memcmp(in, w.data(), n * sizeof(Char)) != 0) c.violation("C16", fmt("escape/%s/adjacent-buffers/input-modified", X::tag()), what);
+                c.count("adjacent_buffer_calls");
+            }
+        }
+    }
+
     void unescape_checks(Ctx& c, const Str& s0) {
         Str s = s0; for (auto& ch : s) if (!ch) ch = '0';
         typename X::S w = widen<X>(s); w.push_back(0);
@@ -146,6 +168,7 @@ static void run_case(Ctx& c, uint64_t idx) {
     if (c.case_index < nc) { eA->escape_checks(c, s); eA->unescape_checks(c, s); eW->escape_checks(c, s); eW->unescape_checks(c, s); return; }
     if (idx % 2 == 0) { eA->escape_checks(c, s); eA->unescape_checks(c, s); } else { eW->escape_checks(c, s); eW->unescape_checks(c, s); }
     if (idx % 10 == 0) { eW->unescape_checks(c, s); eA->escape_checks(c, s); }
+    if (idx % 6 == 1 && s.size() <= 64) { if (idx % 12 == 1) eA->adjacent_checks(c, s); else eW->adjacent_checks(c, s); }
     if (idx % 9000 == 2) c.sample("string", esc(s));
 }
 static void fuzz_one(Ctx& c, const unsigned char* d, size_t n) {
